@@ -407,3 +407,34 @@ func TestC07_BIN(t *testing.T) {
 		return binHealth(in)
 	})
 }
+
+// C07_RACE: the same concurrent tunnels against the race-detector build. Two tunnels that touch the same memory
+// without synchronisation share state; the detector reports the pair even when this run's interleaving happened to
+// be harmless.
+func TestC07_RACE(t *testing.T) {
+	binUseRace = true
+	defer func() { binUseRace = false }()
+	runProp(t, "C07_RACE", func(t *rapid.T) c07Case {
+		c := genC07(t, 12)
+		for i := range c.Tunnels {
+			c.Tunnels[i].StartMs = 0 // set-ups collide as closely as the harness can make them
+		}
+		return c
+	}, classifyC07, func(c c07Case) *Violation {
+		o := c07Opts(c, theGrid().P)
+		in, _, err := binFor(o, "1")
+		if err != nil {
+			return viol("bin/start", "%v", err)
+		}
+		v := runC07(c, o, func(user string) gwc.Target { _, t, _ := binFor(o, user); return t })
+		time.Sleep(20 * time.Millisecond)
+		if f := in.Faults(); f != "" {
+			dropBin(in)
+			if strings.Contains(f, "DATA RACE") {
+				return viol("c07/shared-state/"+raceSite(f), "tunnels share unsynchronised state:\n%s", f)
+			}
+			return viol("c07/fault/"+panicSite(f), "the race-built gateway reported:\n%s", f)
+		}
+		return v
+	})
+}
